@@ -259,6 +259,10 @@ class DiskImageContentInjector(DiskImageWorker):
             if len(fileExtension) > 3:
                 listener.onBeforeBeginOfFile(f"-- too long extension : {cleanSrc}")
                 continue
+            if not (fileName + fileExtension).isascii():
+                # a catalog entry holds ascii only : skipped like the other unsuitable names
+                listener.onBeforeBeginOfFile(f"-- not an ascii name : {cleanSrc}")
+                continue
 
             with open(cleanSrc, "rb") as sourceFile:
                 fileData = sourceFile.read()
